@@ -85,4 +85,21 @@ theorem listBuilderSet_generated_eq_model (l : List Node) (i : Nat) (x : Node) :
   have : i < (padTo l (i + 1)).length := by simp [padTo]; omega
   simp [this]
 
+theorem ListNode_loop_eq : ∀ (items l : List Node), FuncsDom.ListNode_loop1 items l = .ok (l ++ items) := by
+  intro items
+  induction items with
+  | nil => intro l; simp [FuncsDom.ListNode_loop1]
+  | cons x rest ih =>
+    intro l
+    simp only [FuncsDom.ListNode_loop1, listBuilderAppend_generated_eq_model, Go.Res.ok_bind, GoDom.append, listAppend, ih]
+    simp
+
+/-- dom.ListNode(items...) is the list of its arguments -/
+theorem ListNode_generated_eq_model (items : List Node) : FuncsDom.ListNode items = .ok items := by
+  simp [FuncsDom.ListNode, ListNode_loop_eq, GoDom.newList]
+
+/-- ContainerBuilder.Remove(name): `delete(c.children, name)` — the model's `remove` -/
+theorem containerBuilderRemove_generated_eq_model (c : AMap Node) (name : String) :
+    FuncsDom.containerBuilderRemove c name = .ok (GoDom.remove c name) := rfl
+
 end Ytk.FuncsDomBuilder
